@@ -95,3 +95,27 @@ def fill(check, NA):
           "(both quaternion signs, products, q_r = +-q) against the reference logm of the attitude error",
           "trusted: numpy; module constants read from the modules; rate-PID state cap 1500 (quick) / 40000 (thorough) reported when hit",
           "bounded exhaustive exploration: explicit-state BFS over controller memories + alphabet products vs clamp / logm reference models", "DESIGN.md section 4 C15")
+
+    check("C16", "exploration",
+          "exhaustive product over states (attitudes in both quaternion signs, velocities, rates, rotor speeds, two heights) x commands x 21 parameter sets (defaults, asymmetric geometry, all 16 spin patterns, scaled "
+          "mass/inertia/gravity, aerodynamic coefficients) of the real model function against reference rigid-body equations: norm preservation, rotor force / moment sum, full derivative, hover equilibrium, free fall, "
+          "yaw / translation equivariance, motor lag",
+          "trusted: numpy reference equations; z <= 0 (ground contact) outside the quantifier",
+          "bounded exhaustive input x configuration enumeration vs reference rigid-body model", "DESIGN.md section 4 C16")
+    check("C17", "model_checking",
+          "every initial condition of a lattice (position offsets x tilts up to 60 deg in both quaternion signs x velocities x rates x heading set-points x both control modes; quick: pairwise-covering sub-lattice, thorough: "
+          "full product of 2808 runs) drives the real plant function (RK4) closed with the real cascade functions wired as scripts/rdd2_sim.py; every visited state is monitored for finiteness, ground clearance, unit "
+          "quaternion and motor limits, and the last 2 s for settling; K02 (log-linear mode unstable at heading 2 rad) is an open known finding",
+          "trusted: RK4 plant integration with 1 ms sub-steps, perfect state feedback; thresholds have > 30x margin over the worst settled values of the thorough lattice",
+          "bounded exhaustive exploration of closed-loop histories of the real step functions over an initial-condition lattice", "DESIGN.md section 4 C17")
+    check("C18", "exploration",
+          "Bezier.eval and deriv(m).eval for every degree 1..7, dimension {1,3} and order 0..n, the cubic and septic boundary-value solvers and trajectory functions and bezier_multirotor executed in exact rational "
+          "arithmetic (60-digit where the symbolic inverse needs square roots) over control-point patterns, durations and times inside and outside [0,T], against the power-basis Bernstein reference and its exact derivatives",
+          "trusted: Fraction / mpmath arithmetic; float VM conformance-gated against CasADi",
+          "bounded exhaustive enumeration with exact-arithmetic interpretation of the real instruction lists", "DESIGN.md section 4 C18")
+    check("C19", "exploration",
+          "all SymPy expression trees to depth 2 over a 12-leaf alphabet and the converter's constructors (plus matrices, user function maps, cse, shared symbol tables) and all CasADi SX trees to depth 2 over every handled "
+          "opcode are converted and evaluated on a point lattice; value equality or explicit refusal; points outside the real domain of the source (any non-real / non-finite sub-expression), within rounding of a "
+          "discontinuity, or involving IEEE negative zero are decided by the reference and skipped",
+          "trusted: mpmath (30 digits) and CasADi evaluation as references",
+          "bounded exhaustive program enumeration with differential evaluation", "DESIGN.md section 4 C19")
